@@ -32,6 +32,12 @@ def profiles_for(pid, tier):
                             kinds=["get", "hfetch"], opt=["hit", "miss", "err"], env=["dropc", "cancel"]))
         edge.append(profile("4callers-noinsert", "sieve", callers=[1, 2, 3, 4], max_steps=7 if thorough else 6,
                             env=["dropc", "cancel"], opt=["miss", "err"], max_user_ops=0))
+    elif pid == "C17":
+        # two keys with one 64-bit hash: the in-flight table must keep their fetches apart
+        edge.append(profile("2keys-full-collision", "lru", keys=[1, 2], hash={1: 7, 2: 7}, max_steps=7 if thorough else 6,
+                            kinds=["fetch", "hfetch"], opt=["miss", "hit"], env=["ins"], callers=[1, 2, 3], max_user_ops=1))
+        edge.append(profile("2keys-full-collision-get", "fifo", keys=[1, 2], hash={1: 7, 2: 7}, max_steps=6 if thorough else 5,
+                            kinds=["get", "hfetch"], opt=["miss", "hit", "err"], env=["dropc", "cancel"], max_user_ops=0))
     else:  # C11
         edge.append(profile("1key-insert", "lru", max_steps=8 if thorough else 7, env=["ins", "rem"],
                             opt=["hit", "miss"], callers=[1, 2, 3] if thorough else [1, 2], max_user_ops=3))
